@@ -166,7 +166,7 @@ Proof. exact restart_clears_memory_only_state. Qed.
 Print Assumptions C18_restart_clears_memory_only_state.
 
 (* (4) token bucket, exact arithmetic (tokens scaled by ticks-per-second): from ANY well-formed bucket state,
-   over ANY timed sequence of Take(n>=0) and garbage collections with a monotone clock, the admitted tokens
+   over ANY timed sequence of Take(n>=0) and garbage collections with a monotone clock, the tokens granted
    are at most (current level) + rate * elapsed <= burst + rate * elapsed — including across collections *)
 Theorem C18_bucket_bound :
   forall C, bucket_cfg_ok C ->
@@ -192,7 +192,7 @@ Print Assumptions C18_default_thresholds_ok.
 (* (4b) bucket creation in RateLimiter.allow as its lock sections (RLock lookup | Lock re-check + create | Take on
    the held bucket; Model/BucketMap.v): for ANY number of concurrent first requests of any addresses on an empty
    limiter and EVERY schedule, no address ever has two buckets, every thread holds the mapped bucket of its key,
-   and the tokens admitted per address never exceed the burst (clock frozen: no refill) *)
+   and the tokens granted per address never exceed the burst (clock frozen: no refill) *)
 Theorem C18_one_bucket_per_address :
   forall burst ls sched,
   0 <= burst -> BucketMap.fresh ls ->
